@@ -1,6 +1,8 @@
 """C16 - ESXi envelope and keystore: decrypt round-trips and is authenticated."""
 from __future__ import annotations
 
+import re
+
 import hashlib
 import os
 import struct
@@ -224,6 +226,20 @@ def _keystore(rng, ctx, res):
                 return res
             if ks.id != str(uuid.UUID(bytes=key_id)):
                 res["viol"].append({"what": "keystore id differs from the stored keyId", "mech": "keystore", "detail": {"got": ks.id}})
+                return res
+    # a keystore whose ConfigEncData lacks (or misspells) one of keyId / data1 / data2 stores no key: it fails on its own
+    # values, whatever complete keystores were parsed before it in this process
+    good = w.keystore_text(rng, key_id=key_id, data1=variants[0][0], data2=variants[0][1], style=0)
+    for drop in ("keyId", "data1", "data2"):
+        for how in ("absent", "misspelt"):
+            bad = re.sub(rf"{drop}=[^:\"]*:?", "" if how == "absent" else lambda m: m.group(0).replace(drop, drop + "x"), good, count=1)
+            if bad == good:
+                continue
+            ob = call(lambda: KeyStore.from_text(bad).key)
+            cnt["incomplete_keystore_checks"] = cnt.get("incomplete_keystore_checks", 0) + 1
+            if ob.ok:
+                res["viol"].append({"what": f"a keystore with {drop} {how} yielded a key (not a function of its own stored values)", "mech": "keystore",
+                                    "detail": {"field": drop, "how": how, "key": ob.value.hex()[:16] if isinstance(ob.value, bytes) else repr(ob.value)[:40]}})
                 return res
     res["nontrivial"] = True
     res["sig"] = ("keystore", key_id.hex())
